@@ -58,6 +58,36 @@ def duplicate_list_sweep():
     return a
 
 
+def mid_refusal_seed(seed_history_P):
+    """P holds 20, 50, 60 / 90, 100, 130 uL (wells in row-major order); then: well B3 is drained to 5 uL, Q holds the enzyme in
+    A1 only and is nearly full in B2, E is 50 uL below its capacity."""
+    return seed_history_P + [T(['P', "(2, 3)"], 'A', '125 uL'), T('A', ['Q', "(1, 1)"], '30 uL'), T('B', ['Q', "(1, 2)"], '30 uL'),
+                             T('A', ['Q', "(2, 2)"], '480 uL'), T('B', 'E', '1.95 mL')]
+
+
+def mid_refusal_sweep():
+    """Multi-well transfers that the FIRST well can serve and a LATER one cannot (a well overflows, a source well runs dry or
+    holds no enzyme, the receiving container overflows at the third well): the call must be refused as a whole - and if a
+    change lets it return, what left the sources is what the destinations received."""
+    return [
+        T('A', 'P', '390 uL'),                                       # every well can take it (B2: 490 uL): the positive control
+        T('A', 'P', '405 uL'),                                       # A1 420 ok, A2 455 ok, A3 465 ok, B1 495 ok, B2 505 overflows
+        T('A', ['P', "(slice(None), 2)"], '420 uL'),                 # A2 470 ok, B2 520 overflows
+        T('A', ['P', "'B'"], '405 uL'),                              # B1 495 ok, B2 505 overflows
+        T('A', ['Q', "(slice(None), 2)"], '25 uL'),                  # A2 55 ok, B2 505 overflows
+        T('B', ['Q', "[(1, 1), (2, 2)]"], '25 uL'),                  # list form
+        T(['P', "'B'"], 'A', '50 uL'),                               # B1 90, B2 100 ok, B3 holds 5 uL
+        T('P', 'B', '15 uL'),                                        # ... the sixth well
+        T(['P', "(slice(None), 3)"], ['Q', "(slice(None), 1)"], '30 uL'),      # A3 60 ok, B3 holds 5 uL
+        T(['P', "'B'"], ['P', "'A'"], '40 uL'),                      # same plate, third pair fails
+        T(['P', "(slice(None), 2)"], ['Q', "(slice(None), 2)"], '25 uL'),      # destination B2 overflows
+        T(['Q', "1"], 'A', '0.001 U'),                               # A1 holds the enzyme, A2 does not
+        T(['Q', "1"], ['P', "(1, slice(1, 2))"], '0.001 U'),
+        T(['P', "'A'"], 'E', '19 uL'),                               # E: 1.969, 1.988, then 2.007 mL > 2 mL
+        T(['P', "(1, slice(None))"], ['Q', "(2, 2)"], '8 uL'),       # many -> one: 488, 496, 504
+    ]
+
+
 def unit_spellings(value_base, base):
     """The same physical quantity spelled with every prefix. value_base in base units (float)."""
     out = []
